@@ -125,6 +125,18 @@ class Bits(object):
         ctx.check(same_fields(un_r, want_fields, bool(pad)), "unpackify/reverse-is-not-mirror-image/" + tag,
                   "unpackify(reversed bytes, reverse=True) differs from unpackify(bytes)",
                   lambda: wit(got=repr(un_r), want=repr(want_fields)))
+        # ... and with one buffer the caller keeps: its reverse reading and the plain reading of its mirror image agree
+        mine = bytearray(want[::-1])
+        try:
+            m1 = b.unpackify(fmt, mine, boolean=boolean, reverse=True, **kw)
+            m2 = b.unpackify(fmt, mine[::-1], boolean=boolean, **kw)
+            ctx.hit("mirror_readings_of_a_buffer_the_caller_keeps")
+            ctx.check(same_fields(m1, m2, False) and same_fields(m1, want_fields, bool(pad)),
+                      "unpackify/reverse-reading-of-a-kept-buffer-is-not-the-plain-reading-of-its-mirror/" + tag,
+                      "unpackify(mine, reverse=True) and unpackify(mine[::-1]) differ for a buffer the caller keeps",
+                      lambda: wit(first=repr(m1), second=repr(m2), buffer_before=want[::-1].hex(), buffer_after=bytes(mine).hex()))
+        except Exception as e:
+            ctx.fail("unpackify/raises/" + exc_key(e), "unpackify raises %r" % (e,), wit(bytes=want.hex()))
 
         # A: arbitrary bytes
         if raw is not None:
